@@ -2,4 +2,1811 @@
 import Pk.Model.Manager
 namespace Pk.Proofs.MgrConv
 open Pk.Mgr
+
+/-! ## assoc lists -/
+
+theorem sget_nil {α} (k : String) : sget ([] : List (String × α)) k = none := rfl
+theorem sget_cons {α} (a : String × α) (l : List (String × α)) (k : String) :
+    sget (a :: l) k = if a.1 = k then some a.2 else sget l k := by
+  simp only [sget, List.find?_cons]
+  by_cases h : a.1 = k
+  · simp [h]
+  · have : (a.1 == k) = false := by simpa using h
+    simp [h, this]
+
+theorem sget_sins {α} (l : List (String × α)) (k : String) (v : α) (k' : String) :
+    sget (sins k v l) k' = if k = k' then some v else sget l k' := by
+  induction l with
+  | nil => simp [sins, sget_cons, sget_nil]
+  | cons a r ih =>
+    obtain ⟨ka, va⟩ := a
+    simp only [sins]
+    split
+    · simp [sget_cons]
+    · split
+      · subst_vars; simp only [sget_cons]; split <;> simp_all
+      · simp only [sget_cons, ih]; split <;> split <;> simp_all
+
+theorem sget_sdel {α} (l : List (String × α)) (k k' : String) :
+    sget (sdel l k) k' = if k = k' then none else sget l k' := by
+  induction l with
+  | nil => simp [sdel, sget_nil]
+  | cons a r ih =>
+    simp only [sdel, List.filter_cons] at ih ⊢
+    by_cases h : a.1 = k
+    · simp [h, ih, sget_cons]; split <;> simp_all
+    · have : (a.1 != k) = true := by simpa using h
+      simp only [this, if_true, sget_cons, ih]; split <;> split <;> simp_all
+
+theorem sget_mem {α} (l : List (String × α)) (k : String) (v : α) (h : sget l k = some v) :
+    (k, v) ∈ l := by
+  induction l with
+  | nil => simp [sget_nil] at h
+  | cons a r ih =>
+    rw [sget_cons] at h
+    split at h
+    · obtain ⟨ka, va⟩ := a; simp_all
+    · exact List.mem_cons_of_mem _ (ih h)
+
+/-- lookup in a table mapped by a key-preserving function -/
+theorem sget_map {α} (f : String × α → String × α) (hf : ∀ x, (f x).1 = x.1)
+    (l : List (String × α)) (k : String) :
+    sget (l.map f) k = (sget l k).map (fun v => (f (k, v)).2) := by
+  induction l with
+  | nil => simp [sget_nil]
+  | cons a r ih =>
+    simp only [List.map_cons, sget_cons, hf, ih]
+    split
+    · obtain ⟨ka, va⟩ := a; simp_all
+    · rfl
+
+theorem nget_nil {α} (k : Nat) : nget ([] : List (Nat × α)) k = none := rfl
+theorem nget_cons {α} (a : Nat × α) (l : List (Nat × α)) (k : Nat) :
+    nget (a :: l) k = if a.1 = k then some a.2 else nget l k := by
+  simp only [nget, List.find?_cons]
+  by_cases h : a.1 = k
+  · simp [h]
+  · have : (a.1 == k) = false := by simpa using h
+    simp [h, this]
+
+theorem nget_nins {α} (l : List (Nat × α)) (k : Nat) (v : α) (k' : Nat) :
+    nget (nins k v l) k' = if k = k' then some v else nget l k' := by
+  induction l with
+  | nil => simp [nins, nget_cons, nget_nil]
+  | cons a r ih =>
+    obtain ⟨ka, va⟩ := a
+    simp only [nins]
+    split
+    · simp [nget_cons]
+    · split
+      · subst_vars; simp only [nget_cons]; split <;> simp_all
+      · simp only [nget_cons, ih]; split <;> split <;> simp_all
+
+theorem nget_ndel {α} (l : List (Nat × α)) (k k' : Nat) :
+    nget (ndel l k) k' = if k = k' then none else nget l k' := by
+  induction l with
+  | nil => simp [ndel, nget_nil]
+  | cons a r ih =>
+    simp only [ndel, List.filter_cons] at ih ⊢
+    by_cases h : a.1 = k
+    · simp [h, ih, nget_cons]; split <;> simp_all
+    · have : (a.1 != k) = true := by simpa using h
+      simp only [this, if_true, nget_cons, ih]; split <;> split <;> simp_all
+
+/-! ## id sets -/
+
+theorem mem_ins (x y : Nat) (l : List Nat) : y ∈ ins x l ↔ y = x ∨ y ∈ l := by
+  induction l with
+  | nil => simp [ins]
+  | cons a r ih =>
+    simp only [ins]; split
+    · simp
+    · split
+      · subst_vars; simp
+      · simp [ih]; grind
+
+theorem mem_union (a b : IdSet) (x : Nat) : x ∈ union a b ↔ x ∈ a ∨ x ∈ b := by
+  unfold union
+  induction b generalizing a with
+  | nil => simp
+  | cons y ys ih => simp only [List.foldl_cons, ih, mem_ins, List.mem_cons]; grind
+
+theorem mem_diff (a b : IdSet) (x : Nat) : x ∈ diff a b ↔ x ∈ a ∧ x ∉ b := by
+  simp [diff]
+theorem mem_inter (a b : IdSet) (x : Nat) : x ∈ inter a b ↔ x ∈ a ∧ x ∈ b := by
+  simp [inter]
+theorem mem_ofList (l : List Nat) (x : Nat) : x ∈ ofList l ↔ x ∈ l := by
+  simp [ofList, mem_union]
+
+/-! ## generic fold lemma -/
+
+theorem foldl_rel {σ β} (R : σ → σ → Prop) (hrefl : ∀ s, R s s)
+    (htrans : ∀ a b c, R a b → R b c → R a c) (f : σ → β → σ) (l : List β)
+    (hf : ∀ s x, x ∈ l → R s (f s x)) (s : σ) : R s (l.foldl f s) := by
+  induction l generalizing s with
+  | nil => exact hrefl s
+  | cons x xs ih =>
+    exact htrans _ _ _ (hf s x (by simp)) (ih (fun s y hy => hf s y (by simp [hy])) _)
+
+/-! ## views of the state used by C16 -/
+
+def cOf (s : St) (c : String) : IdSet := (sget s.cached c).getD []
+def qOf (s : St) (c : String) : IdSet := (sget s.toconv c).getD []
+
+/-- every tag of `tags'` stems from a tag of `tags` with at least its converters and matches
+    (or has no converter attached) -/
+def TagsLe (tags' tags : List (String × Tag)) : Prop :=
+  ∀ n t', sget tags' n = some t' →
+    t'.convs = [] ∨ ∃ n0 t, sget tags n0 = some t ∧ (∀ c ∈ t'.convs, c ∈ t.convs) ∧ ∀ id ∈ t'.mat, id ∈ t.mat
+
+theorem TagsLe.refl (tags : List (String × Tag)) : TagsLe tags tags :=
+  fun n t' h => Or.inr ⟨n, t', h, fun _ h => h, fun _ h => h⟩
+
+theorem TagsLe.trans {a b c : List (String × Tag)} (h1 : TagsLe b a) (h2 : TagsLe c b) : TagsLe c a := by
+  intro n t'' h
+  rcases h2 n t'' h with h0 | ⟨n', t', ht', hc, hm⟩
+  · exact Or.inl h0
+  · rcases h1 n' t' ht' with h0 | ⟨n0, t, ht, hc', hm'⟩
+    · left
+      cases hcs : t''.convs with
+      | nil => rfl
+      | cons x xs => have := hc x (by simp [hcs]); simp [h0] at this
+    · exact Or.inr ⟨n0, t, ht, fun c h => hc' c (hc c h), fun i h => hm' i (hm i h)⟩
+
+theorem TagsLe_sins (tags : List (String × Tag)) (n : String) (t t' : Tag)
+    (ht : sget tags n = some t) (hc : ∀ c ∈ t'.convs, c ∈ t.convs) (hm : ∀ id ∈ t'.mat, id ∈ t.mat) :
+    TagsLe (sins n t' tags) tags := by
+  intro m u hu
+  rw [sget_sins] at hu
+  split at hu
+  · subst_vars; cases hu; exact Or.inr ⟨_, t, ht, hc, hm⟩
+  · exact TagsLe.refl _ m u hu
+
+theorem TagsLe_sins_new (tags : List (String × Tag)) (n : String) (t' : Tag)
+    (hc : t'.convs = []) : TagsLe (sins n t' tags) tags := by
+  intro m u hu
+  rw [sget_sins] at hu
+  split at hu
+  · cases hu; exact Or.inl hc
+  · exact TagsLe.refl _ m u hu
+
+theorem TagsLe_sdel (tags : List (String × Tag)) (n : String) : TagsLe (sdel tags n) tags := by
+  intro m u hu
+  rw [sget_sdel] at hu
+  split at hu
+  · cases hu
+  · exact TagsLe.refl _ m u hu
+
+theorem TagsLe_map (tags : List (String × Tag)) (f : String × Tag → String × Tag)
+    (hf : ∀ x, (f x).1 = x.1 ∧ (f x).2.convs = x.2.convs ∧ (f x).2.mat = x.2.mat) :
+    TagsLe (tags.map f) tags := by
+  intro m u hu
+  rw [sget_map f (fun x => (hf x).1)] at hu
+  cases h : sget tags m with
+  | none => simp [h] at hu
+  | some t =>
+    simp only [h, Option.map_some, Option.some.injEq] at hu
+    subst hu
+    refine Or.inr ⟨m, t, h, ?_, ?_⟩
+    · rw [(hf (m, t)).2.1]; exact fun _ h => h
+    · rw [(hf (m, t)).2.2]; exact fun _ h => h
+
+/-- same converter state; tags only lose converters / matches -/
+structure SameK (s s' : St) : Prop where
+  cached : s'.cached = s.cached
+  toconv : s'.toconv = s.toconv
+  convs : s'.convs = s.convs
+  next : s'.next = s.next
+  convert : s'.convert = s.convert
+  tags : TagsLe s'.tags s.tags
+
+theorem SameK.refl (s : St) : SameK s s := ⟨rfl, rfl, rfl, rfl, rfl, TagsLe.refl _⟩
+theorem SameK.trans {a b c : St} (h1 : SameK a b) (h2 : SameK b c) : SameK a c :=
+  ⟨h2.cached.trans h1.cached, h2.toconv.trans h1.toconv, h2.convs.trans h1.convs,
+   h2.next.trans h1.next, h2.convert.trans h1.convert, h1.tags.trans h2.tags⟩
+
+/-- `SameK` and the served files are untouched -/
+def Same (s s' : St) : Prop := SameK s s' ∧ s'.idx = s.idx ∧ s'.files = s.files
+
+theorem Same.refl (s : St) : Same s s := ⟨SameK.refl s, rfl, rfl⟩
+theorem Same.trans {a b c : St} (h1 : Same a b) (h2 : Same b c) : Same a c :=
+  ⟨h1.1.trans h2.1, h2.2.1.trans h1.2.1, h2.2.2.trans h1.2.2⟩
+
+theorem Same_foldl {β} (f : St → β → St) (l : List β) (hf : ∀ s x, Same s (f s x)) (s : St) :
+    Same s (l.foldl f s) :=
+  foldl_rel Same Same.refl (fun _ _ _ => Same.trans) f l (fun s x _ => hf s x) s
+
+theorem SameK_foldl {β} (f : St → β → St) (l : List β) (hf : ∀ s x, SameK s (f s x)) (s : St) :
+    SameK s (l.foldl f s) :=
+  foldl_rel SameK SameK.refl (fun _ _ _ => SameK.trans) f l (fun s x _ => hf s x) s
+
+/-- converter state may change, but nothing that was cached-or-queued gets lost -/
+structure Grow (s s' : St) : Prop where
+  convs : s'.convs = s.convs
+  next : s'.next = s.next
+  idx : s'.idx = s.idx
+  files : s'.files = s.files
+  tags : TagsLe s'.tags s.tags
+  cov : ∀ c id, id ∈ cOf s c ∨ id ∈ qOf s c → id ∈ cOf s' c ∨ id ∈ qOf s' c
+
+theorem Grow.refl (s : St) : Grow s s := ⟨rfl, rfl, rfl, rfl, TagsLe.refl _, fun _ _ h => h⟩
+theorem Grow.trans {a b c : St} (h1 : Grow a b) (h2 : Grow b c) : Grow a c :=
+  ⟨h2.convs.trans h1.convs, h2.next.trans h1.next, h2.idx.trans h1.idx, h2.files.trans h1.files,
+   h1.tags.trans h2.tags, fun c id h => h2.cov c id (h1.cov c id h)⟩
+theorem Same.grow {s s' : St} (h : Same s s') : Grow s s' :=
+  ⟨h.1.convs, h.1.next, h.2.1, h.2.2, h.1.tags, fun c id hh => by
+    simpa only [cOf, qOf, h.1.cached, h.1.toconv] using hh⟩
+
+theorem Grow_foldl {β} (f : St → β → St) (l : List β) (hf : ∀ s x, Grow s (f s x)) (s : St) :
+    Grow s (l.foldl f s) :=
+  foldl_rel Grow Grow.refl (fun _ _ _ => Grow.trans) f l (fun s x _ => hf s x) s
+
+/-! ## the invariants -/
+
+def Acc (s : St) : Prop :=
+  ∀ n t, sget s.tags n = some t → ∀ c ∈ t.convs, ∀ id, id ∈ t.mat → id < s.next →
+    id ∈ cOf s c ∨ id ∈ qOf s c
+def CWF (s : St) : Prop := ∀ n t, sget s.tags n = some t → ∀ c ∈ t.convs, c ∈ s.convs
+def Cov (s : St) : Prop := ∀ id, id < s.next → ∃ f ∈ s.idx, id ∈ (nget s.files f).getD []
+
+def Good0 (s : St) : Prop := Acc s ∧ CWF s ∧ Cov s
+
+theorem CWF_of_le {s s' : St} (ht : TagsLe s'.tags s.tags) (hc : s'.convs = s.convs) (h : CWF s) :
+    CWF s' := by
+  intro n t' ht' c hc'
+  rcases ht n t' ht' with h0 | ⟨n0, t, htt, hcs, _⟩
+  · simp [h0] at hc'
+  · rw [hc]; exact h n0 t htt c (hcs c hc')
+
+theorem Acc_of_le {s s' : St} (ht : TagsLe s'.tags s.tags) (hn : s'.next = s.next)
+    (hcov : ∀ c id, id ∈ cOf s c ∨ id ∈ qOf s c → id ∈ cOf s' c ∨ id ∈ qOf s' c) (h : Acc s) :
+    Acc s' := by
+  intro n t' ht' c hc' id hid hlt
+  rcases ht n t' ht' with h0 | ⟨n0, t, htt, hcs, hm⟩
+  · simp [h0] at hc'
+  · exact hcov c id (h n0 t htt c (hcs c hc') id (hm id hid) (hn ▸ hlt))
+
+theorem Good0_of_grow {s s' : St} (g : Grow s s') (h : Good0 s) : Good0 s' := by
+  refine ⟨Acc_of_le g.tags g.next g.cov h.1, CWF_of_le g.tags g.convs h.2.1, ?_⟩
+  intro id hid
+  rw [g.idx, g.files]; exact h.2.2 id (g.next ▸ hid)
+
+theorem Good0_of_same {s s' : St} (g : Same s s') (h : Good0 s) : Good0 s' := Good0_of_grow g.grow h
+
+theorem Acc_of_sameK {s s' : St} (g : SameK s s') (h : Acc s) : Acc s' :=
+  Acc_of_le g.tags g.next (fun c id hh => by
+    simpa only [cOf, qOf, g.cached, g.toconv] using hh) h
+theorem CWF_of_sameK {s s' : St} (g : SameK s s') (h : CWF s) : CWF s' :=
+  CWF_of_le g.tags g.convs h
+
+theorem Same_used (s : St) (u : List (Nat × Nat)) : Same s { s with used := u } :=
+  ⟨⟨rfl, rfl, rfl, rfl, rfl, TagsLe.refl _⟩, rfl, rfl⟩
+
+theorem Same_getIndexesCopy (s : St) (i : Nat) : Same s (getIndexesCopy s i).1 := Same_used _ _
+
+theorem Same_startImport (s : St) : Same s (startImport s) :=
+  ⟨⟨rfl, rfl, rfl, rfl, rfl, TagsLe.refl _⟩, rfl, rfl⟩
+
+theorem Same_startMerge (s : St) : Same s (startMerge s) := by
+  unfold startMerge
+  split
+  · exact Same.refl _
+  · split
+    · exact Same.refl _
+    · split
+      · exact Same.refl _
+      · exact ⟨⟨rfl, rfl, rfl, rfl, rfl, TagsLe.refl _⟩, rfl, rfl⟩
+
+theorem Same_startTagging (s : St) (ch : Option String) : Same s (startTagging s ch) := by
+  unfold startTagging
+  repeat (first | exact Same.refl _ | exact ⟨⟨rfl, rfl, rfl, rfl, rfl, TagsLe.refl _⟩, rfl, rfl⟩ | split)
+
+theorem Same_invDuring (s : St) (ids : IdSet) : Same s (invalidatedDuringTaggingJob s ids) := by
+  unfold invalidatedDuringTaggingJob
+  split
+  · exact ⟨⟨rfl, rfl, rfl, rfl, rfl, TagsLe.refl _⟩, rfl, rfl⟩
+  · exact Same.refl _
+
+theorem Same_tags (s : St) (tags : List (String × Tag)) (h : TagsLe tags s.tags) :
+    Same s { s with tags := tags } :=
+  ⟨⟨rfl, rfl, rfl, rfl, rfl, h⟩, rfl, rfl⟩
+
+theorem Same_setTag (s : St) (n : String) (t t' : Tag) (ht : sget s.tags n = some t)
+    (hc : ∀ c ∈ t'.convs, c ∈ t.convs) (hm : ∀ id ∈ t'.mat, id ∈ t.mat) : Same s (setTag s n t') :=
+  Same_tags s _ (TagsLe_sins _ _ _ _ ht hc hm)
+
+theorem Same_setTag_new (s : St) (n : String) (t' : Tag) (hc : t'.convs = []) : Same s (setTag s n t') :=
+  Same_tags s _ (TagsLe_sins_new _ _ _ hc)
+
+theorem Same_addRefBy (s : St) (a b : String) : Same s (addRefBy s a b) := by
+  unfold addRefBy
+  split
+  · next t ht => exact Same_setTag s a t _ ht (fun _ h => h) (fun _ h => h)
+  · exact Same.refl _
+
+theorem Same_delRefBy (s : St) (a b : String) : Same s (delRefBy s a b) := by
+  unfold delRefBy
+  split
+  · next t ht => exact Same_setTag s a t _ ht (fun _ h => h) (fun _ h => h)
+  · exact Same.refl _
+
+theorem inheritOne_convs (all : Nat) (tags : List (String × Tag)) (t : Tag) :
+    (inheritOne all tags t).convs = t.convs ∧ (inheritOne all tags t).mat = t.mat := by
+  unfold inheritOne
+  split
+  · exact ⟨rfl, rfl⟩
+  · split <;> exact ⟨rfl, rfl⟩
+
+theorem inheritPass_le (all : Nat) (l tags : List (String × Tag)) (res : List String) :
+    TagsLe (l.foldl (fun (acc : List (String × Tag) × List String) (nt : String × Tag) =>
+      let (tags, resolved) := acc
+      let n := nt.1
+      if resolved.contains n then acc
+      else match sget tags n with
+        | none => acc
+        | some t =>
+          if t.refs.all (fun r => resolved.contains r) then
+            (sins n (inheritOne all tags t) tags, n :: resolved)
+          else acc) (tags, res)).1 tags := by
+  induction l generalizing tags res with
+  | nil => exact TagsLe.refl _
+  | cons a r ih =>
+    simp only [List.foldl_cons]
+    split
+    · exact ih _ _
+    · split
+      · exact ih _ _
+      · next t ht =>
+        split
+        · refine TagsLe.trans ?_ (ih _ _)
+          have := inheritOne_convs all tags t
+          exact TagsLe_sins _ _ t _ ht (by rw [this.1]; exact fun _ h => h) (by rw [this.2]; exact fun _ h => h)
+        · exact ih _ _
+
+theorem inheritLoop_le (all fuel : Nat) (tags : List (String × Tag)) (res : List String) :
+    TagsLe (inheritLoop all fuel tags res).1 tags := by
+  induction fuel generalizing tags res with
+  | zero => exact TagsLe.refl _
+  | succ k ih =>
+    unfold inheritLoop
+    split
+    · exact TagsLe.refl _
+    · simp only []
+      refine TagsLe.trans ?_ (ih _ _)
+      exact inheritPass_le all tags tags res
+
+theorem Same_inherit (s : St) : Same s (inherit s) := by
+  unfold inherit
+  exact ⟨⟨rfl, rfl, rfl, rfl, rfl, inheritLoop_le _ _ _ _⟩, rfl, rfl⟩
+
+theorem Same_invalidateTags (s : St) (u r a : IdSet) : Same s (invalidateTags s u r a) := by
+  unfold invalidateTags
+  refine Same.trans (Same_tags s _ ?_) (Same_inherit _)
+  apply TagsLe_map
+  intro x
+  obtain ⟨n, t⟩ := x
+  simp only []
+  split
+  · exact ⟨rfl, rfl, rfl⟩
+  · split
+    · split <;> exact ⟨rfl, rfl, rfl⟩
+    · exact ⟨rfl, rfl, rfl⟩
+/-- one step of `release` -/
+def rel1 (s : St) (f : Nat) : St :=
+  match nget s.used f with
+  | none => s
+  | some n => if n ≤ 1 then { s with used := ndel s.used f, files := ndel s.files f }
+              else { s with used := nins f (n - 1) s.used }
+
+theorem release_eq (s : St) (fs : List Nat) : release s fs = fs.foldl rel1 s := rfl
+
+theorem rel1_sameK (s : St) (f : Nat) : SameK s (rel1 s f) ∧ (rel1 s f).idx = s.idx := by
+  unfold rel1
+  split
+  · exact ⟨SameK.refl _, rfl⟩
+  · split <;> exact ⟨⟨rfl, rfl, rfl, rfl, rfl, TagsLe.refl _⟩, rfl⟩
+
+theorem release_sameK (s : St) (fs : List Nat) : SameK s (release s fs) ∧ (release s fs).idx = s.idx := by
+  rw [release_eq]
+  induction fs generalizing s with
+  | nil => exact ⟨SameK.refl _, rfl⟩
+  | cons f r ih =>
+    simp only [List.foldl_cons]
+    have h1 := rel1_sameK s f
+    have h2 := ih (rel1 s f)
+    exact ⟨h1.1.trans h2.1, h2.2.trans h1.2⟩
+
+/-- a file with more locks than are released stays open with its content -/
+theorem release_files_keep (s : St) (fs : List Nat) (f : Nat)
+    (h : fs.count f < (nget s.used f).getD 0) :
+    nget (release s fs).files f = nget s.files f := by
+  rw [release_eq]
+  induction fs generalizing s with
+  | nil => rfl
+  | cons g r ih =>
+    simp only [List.foldl_cons]
+    have key : r.count f < (nget (rel1 s g).used f).getD 0 ∧ nget (rel1 s g).files f = nget s.files f := by
+      unfold rel1
+      by_cases hg : g = f
+      · subst hg
+        simp only [List.count_cons_self] at h
+        cases hu : nget s.used g with
+        | none => simp [hu] at h
+        | some n =>
+          simp only [hu, Option.getD_some] at h
+          have : ¬ n ≤ 1 := by omega
+          simp only [this, if_false, nget_nins, if_true, Option.getD_some]
+          exact ⟨by omega, trivial⟩
+      · have hc : (g :: r).count f = r.count f := by simp [hg]
+        rw [hc] at h
+        split
+        · exact ⟨h, rfl⟩
+        · split
+          · simp only [nget_ndel, hg, if_false]; exact ⟨h, trivial⟩
+          · simp only [nget_nins, hg, if_false]; exact ⟨h, trivial⟩
+    rw [ih _ key.1, key.2]
+
+/-- `release` never opens a file -/
+theorem release_files_none (s : St) (fs : List Nat) (f : Nat) (h : nget s.files f = none) :
+    nget (release s fs).files f = none := by
+  rw [release_eq]
+  induction fs generalizing s with
+  | nil => exact h
+  | cons g r ih =>
+    simp only [List.foldl_cons]
+    apply ih
+    unfold rel1
+    split
+    · exact h
+    · split
+      · simp only [nget_ndel]; split <;> simp [h]
+      · exact h
+/-- one step of `invalidateConverters` -/
+def ic1 (u : IdSet) (s : St) (c : String) : St :=
+  let cache := (sget s.cached c).getD []
+  let inv := inter u cache
+  { s with cached := sins c (diff cache inv) s.cached,
+           toconv := sins c (union ((sget s.toconv c).getD []) inv) s.toconv }
+
+theorem invalidateConverters_eq (s : St) (u : IdSet) :
+    invalidateConverters s u = s.convs.foldl (ic1 u) s := rfl
+
+theorem cOf_ic1 (u : IdSet) (s : St) (c c' : String) (id : Nat) :
+    id ∈ cOf (ic1 u s c) c' ↔ id ∈ cOf s c' ∧ (c' = c → id ∉ u) := by
+  simp only [cOf, ic1, sget_sins]
+  by_cases h : c = c'
+  · subst h; simp [mem_diff, mem_inter]; grind
+  · have h' : ¬ c' = c := fun e => h e.symm
+    simp [h, h']
+
+theorem qOf_ic1 (u : IdSet) (s : St) (c c' : String) (id : Nat) :
+    id ∈ qOf (ic1 u s c) c' ↔ id ∈ qOf s c' ∨ (c' = c ∧ id ∈ u ∧ id ∈ cOf s c) := by
+  simp only [qOf, cOf, ic1, sget_sins]
+  by_cases h : c = c'
+  · subst h; simp [mem_union, mem_inter]
+  · have h' : ¬ c' = c := fun e => h e.symm
+    simp [h, h']
+
+theorem ic1_grow (u : IdSet) (s : St) (c : String) : Grow s (ic1 u s c) := by
+  refine ⟨rfl, rfl, rfl, rfl, TagsLe.refl _, ?_⟩
+  intro c' id h
+  rw [cOf_ic1, qOf_ic1]
+  by_cases hc : c' = c
+  · subst hc; by_cases hu : id ∈ u <;> simp_all <;> grind
+  · simp_all
+
+theorem ic_fold (u : IdSet) (l : List String) (s : St) :
+    Grow s (l.foldl (ic1 u) s) ∧ (l.foldl (ic1 u) s).convert = s.convert ∧
+    ∀ c id, id ∈ cOf (l.foldl (ic1 u) s) c → id ∈ cOf s c ∧ (c ∈ l → id ∉ u) := by
+  induction l generalizing s with
+  | nil => exact ⟨Grow.refl _, rfl, fun c id h => ⟨h, by simp⟩⟩
+  | cons a r ih =>
+    simp only [List.foldl_cons]
+    obtain ⟨g, hc, hs⟩ := ih (ic1 u s a)
+    refine ⟨(ic1_grow u s a).trans g, hc, ?_⟩
+    intro c id h
+    obtain ⟨h1, h2⟩ := hs c id h
+    rw [cOf_ic1] at h1
+    refine ⟨h1.1, ?_⟩
+    intro hmem
+    rcases List.mem_cons.1 hmem with e | e
+    · exact h1.2 e
+    · exact h2 e
+
+theorem invalidateConverters_grow (s : St) (u : IdSet) : Grow s (invalidateConverters s u) :=
+  (ic_fold u s.convs s).1
+theorem invalidateConverters_convert (s : St) (u : IdSet) :
+    (invalidateConverters s u).convert = s.convert := (ic_fold u s.convs s).2.1
+theorem invalidateConverters_cached (s : St) (u : IdSet) (c : String) (id : Nat)
+    (h : id ∈ cOf (invalidateConverters s u) c) : id ∈ cOf s c ∧ (c ∈ s.convs → id ∉ u) :=
+  (ic_fold u s.convs s).2.2 c id h
+def activeOf (s : St) : List (String × IdSet) :=
+  s.convs.filterMap fun c =>
+    let req := (sget s.toconv c).getD []
+    if req.isEmpty then none else some (c, req)
+def clr1 (s : St) (x : String × IdSet) : St := { s with toconv := sins x.1 [] s.toconv }
+def add1 (found : IdSet) (s : St) (x : String × IdSet) : St :=
+  { s with cached := sins x.1 (union ((sget s.cached x.1).getD []) (inter x.2 found)) s.cached }
+def foundOf (files : List (Nat × List Nat)) (fs : List Nat) : IdSet :=
+  fs.foldl (fun acc f => union acc ((nget files f).getD [])) []
+
+def sc2 (s : St) : St := 
+  let act := activeOf s
+  let s1 := act.foldl clr1 s
+  let s2 := { s1 with used := lock s1.used (s1.idx.drop 0) }
+  let found := foundOf s2.files (s1.idx.drop 0)
+  let remaining := act.map fun x => (x.1, inter (diff x.2 ((sget s2.cached x.1).getD [])) found)
+  let s3 := act.foldl (add1 found) s2
+  { s3 with convert := true, jConv := some (remaining, s1.idx.drop 0) }
+
+theorem startConverter_eq (s : St) :
+    startConverter s = if s.convert then s else if (activeOf s).isEmpty then s else sc2 s := rfl
+
+theorem mem_foundOf (files : List (Nat × List Nat)) (fs : List Nat) (id : Nat) :
+    id ∈ foundOf files fs ↔ ∃ f ∈ fs, id ∈ (nget files f).getD [] := by
+  unfold foundOf
+  suffices h : ∀ acc : IdSet, id ∈ fs.foldl (fun acc f => union acc ((nget files f).getD [])) acc ↔
+      id ∈ acc ∨ ∃ f ∈ fs, id ∈ (nget files f).getD [] by simpa using h []
+  induction fs with
+  | nil => simp
+  | cons g r ih => intro acc; simp only [List.foldl_cons, ih, mem_union, List.mem_cons]; grind
+
+theorem mem_activeOf (s : St) (c : String) (req : IdSet) :
+    (c, req) ∈ activeOf s ↔ c ∈ s.convs ∧ req = qOf s c ∧ req ≠ [] := by
+  simp only [activeOf, List.mem_filterMap, qOf]
+  constructor
+  · rintro ⟨a, ha, h⟩
+    split at h
+    · cases h
+    · next hne => cases h; exact ⟨ha, rfl, by simpa using hne⟩
+  · rintro ⟨h1, h2, h3⟩
+    subst h2
+    refine ⟨c, h1, ?_⟩
+    rw [if_neg (by simpa using h3)]
+
+/-- fields not touched by clearing queues -/
+def NQ (s : St) := (s.tags, s.convs, s.next, s.idx, s.files, s.cached, s.convert, s.jTag)
+/-- fields not touched by filling caches -/
+def NC (s : St) := (s.tags, s.convs, s.next, s.idx, s.files, s.toconv, s.jTag)
+
+theorem clr_fold (l : List (String × IdSet)) (s : St) : NQ (l.foldl clr1 s) = NQ s := by
+  induction l generalizing s with
+  | nil => rfl
+  | cons a r ih => simp only [List.foldl_cons]; rw [ih]; rfl
+
+theorem clr_fold_q (l : List (String × IdSet)) (s : St) (c : String) :
+    qOf (l.foldl clr1 s) c = if c ∈ l.map (·.1) then [] else qOf s c := by
+  induction l generalizing s with
+  | nil => simp
+  | cons a r ih =>
+    simp only [List.foldl_cons, ih, List.map_cons, List.mem_cons]
+    by_cases h1 : c ∈ r.map (·.1)
+    · simp [h1]
+    · simp only [h1, if_false, or_false, qOf, clr1, sget_sins]
+      by_cases h2 : a.1 = c
+      · simp [h2]
+      · have : ¬ c = a.1 := fun e => h2 e.symm
+        simp [h2, this]
+
+theorem add_fold (found : IdSet) (l : List (String × IdSet)) (s : St) :
+    NC (l.foldl (add1 found) s) = NC s := by
+  induction l generalizing s with
+  | nil => rfl
+  | cons a r ih => simp only [List.foldl_cons]; rw [ih]; rfl
+
+theorem add_fold_c (found : IdSet) (l : List (String × IdSet)) (s : St) (c : String) (id : Nat) :
+    id ∈ cOf (l.foldl (add1 found) s) c ↔
+      id ∈ cOf s c ∨ ∃ x ∈ l, x.1 = c ∧ id ∈ x.2 ∧ id ∈ found := by
+  induction l generalizing s with
+  | nil => simp
+  | cons a r ih =>
+    simp only [List.foldl_cons, ih, List.mem_cons]
+    have : id ∈ cOf (add1 found s a) c ↔ id ∈ cOf s c ∨ (a.1 = c ∧ id ∈ a.2 ∧ id ∈ found) := by
+      simp only [cOf, add1, sget_sins]
+      by_cases h2 : a.1 = c
+      · simp [h2, mem_union, mem_inter]
+      · simp [h2]
+    rw [this]
+    grind
+
+theorem sc2_frame (s : St) :
+    (sc2 s).tags = s.tags ∧ (sc2 s).convs = s.convs ∧ (sc2 s).next = s.next ∧
+    (sc2 s).idx = s.idx ∧ (sc2 s).files = s.files := by
+  have h1 := clr_fold (activeOf s) s
+  have h2 := add_fold (foundOf ((activeOf s).foldl clr1 s).files (((activeOf s).foldl clr1 s).idx.drop 0))
+    (activeOf s) { ((activeOf s).foldl clr1 s) with
+      used := lock ((activeOf s).foldl clr1 s).used (((activeOf s).foldl clr1 s).idx.drop 0) }
+  simp only [NQ, NC, Prod.mk.injEq] at h1 h2
+  simp only [sc2]
+  refine ⟨h2.1.trans h1.1, h2.2.1.trans h1.2.1, h2.2.2.1.trans h1.2.2.1,
+    h2.2.2.2.1.trans h1.2.2.2.1, h2.2.2.2.2.1.trans h1.2.2.2.2.1⟩
+
+theorem sc2_cached (s : St) (c : String) (id : Nat) :
+    id ∈ cOf (sc2 s) c ↔
+      id ∈ cOf s c ∨ (c ∈ s.convs ∧ id ∈ qOf s c ∧ id ∈ foundOf s.files s.idx) := by
+  have h1 := clr_fold (activeOf s) s
+  simp only [NQ, Prod.mk.injEq] at h1
+  have : cOf (sc2 s) c = cOf ((activeOf s).foldl (add1 (foundOf s.files s.idx))
+      { ((activeOf s).foldl clr1 s) with
+        used := lock ((activeOf s).foldl clr1 s).used (((activeOf s).foldl clr1 s).idx.drop 0) }) c := by
+    simp only [sc2, cOf, List.drop_zero, h1.2.2.2.1, h1.2.2.2.2.1]
+  rw [this, add_fold_c]
+  have hc : cOf { ((activeOf s).foldl clr1 s) with
+        used := lock ((activeOf s).foldl clr1 s).used (((activeOf s).foldl clr1 s).idx.drop 0) } c = cOf s c := by
+    simp only [cOf, h1.2.2.2.2.2.1]
+  rw [hc]
+  constructor
+  · rintro (h | ⟨⟨c', req⟩, hx, rfl, h2, h3⟩)
+    · exact Or.inl h
+    · rw [mem_activeOf] at hx
+      obtain ⟨hx1, hx2, _⟩ := hx
+      exact Or.inr ⟨hx1, hx2 ▸ h2, h3⟩
+  · rintro (h | ⟨h1, h2, h3⟩)
+    · exact Or.inl h
+    · refine Or.inr ⟨(c, qOf s c), ?_, rfl, h2, h3⟩
+      rw [mem_activeOf]
+      exact ⟨h1, rfl, fun e => by simp [e] at h2⟩
+
+theorem startConverter_frame (s : St) :
+    (startConverter s).tags = s.tags ∧ (startConverter s).convs = s.convs ∧
+    (startConverter s).next = s.next ∧ (startConverter s).idx = s.idx ∧
+    (startConverter s).files = s.files := by
+  rw [startConverter_eq]
+  split
+  · simp
+  · split
+    · simp
+    · exact sc2_frame s
+
+theorem startConverter_cached_mono (s : St) (c : String) (id : Nat) (h : id ∈ cOf s c) :
+    id ∈ cOf (startConverter s) c := by
+  rw [startConverter_eq]
+  split
+  · exact h
+  · split
+    · exact h
+    · rw [sc2_cached]; exact Or.inl h
+
+/-- the converter job either does not start (nothing changes) or it starts now -/
+theorem startConverter_cases (s : St) :
+    startConverter s = s ∨ (s.convert = false ∧ (startConverter s).convert = true) := by
+  rw [startConverter_eq]
+  split
+  · exact Or.inl rfl
+  · split
+    · exact Or.inl rfl
+    · next h _ => exact Or.inr ⟨by simpa using h, rfl⟩
+
+theorem Good0_startConverter (s : St) (h : Good0 s) : Good0 (startConverter s) := by
+  obtain ⟨hacc, hcwf, hcov⟩ := h
+  have hf := startConverter_frame s
+  rw [startConverter_eq] at hf ⊢
+  split
+  · exact ⟨hacc, hcwf, hcov⟩
+  · split
+    · exact ⟨hacc, hcwf, hcov⟩
+    · next hnc hact =>
+      rw [if_neg hnc, if_neg hact] at hf
+      obtain ⟨f1, f2, f3, f4, f5⟩ := hf
+      refine ⟨?_, ?_, ?_⟩
+      · intro n t ht c hc id hid hlt
+        rw [f1] at ht; rw [f3] at hlt
+        left
+        rw [sc2_cached]
+        rcases hacc n t ht c hc id hid hlt with h | h
+        · exact Or.inl h
+        · refine Or.inr ⟨hcwf n t ht c hc, h, ?_⟩
+          rw [mem_foundOf]; exact hcov id hlt
+      · intro n t ht c hc
+        rw [f1] at ht; rw [f2]; exact hcwf n t ht c hc
+      · intro id hid
+        rw [f4, f5]; exact hcov id (f3 ▸ hid)
+/-! ## attach / detach -/
+
+def othersOf (tags : List (String × Tag)) (n c : String) : IdSet :=
+  tags.foldl (fun acc (x : String × Tag) =>
+      if x.1 != n && x.2.convs.contains c then union acc x.2.mat else acc) ([] : IdSet)
+
+def dc2 (s : St) (n c : String) (t : Tag) : St :=
+  let t' := { t with convs := t.convs.filter (· != c) }
+  let s1 := setTag s n t'
+  let others := othersOf s1.tags n c
+  let only := diff t'.mat others
+  let s2 := { s1 with toconv := sins c (diff ((sget s1.toconv c).getD []) only) s1.toconv }
+  if others.isEmpty then { s2 with cached := sins c [] s2.cached } else s2
+
+theorem detachConv_eq (s : St) (n c : String) :
+    detachConv s n c = match sget s.tags n with | none => s | some t => dc2 s n c t := rfl
+
+theorem mem_othersOf (tags : List (String × Tag)) (n c : String) (id : Nat) :
+    id ∈ othersOf tags n c ↔ ∃ x ∈ tags, x.1 ≠ n ∧ c ∈ x.2.convs ∧ id ∈ x.2.mat := by
+  unfold othersOf
+  suffices h : ∀ acc : IdSet, id ∈ tags.foldl (fun acc (x : String × Tag) =>
+      if x.1 != n && x.2.convs.contains c then union acc x.2.mat else acc) acc ↔
+      id ∈ acc ∨ ∃ x ∈ tags, x.1 ≠ n ∧ c ∈ x.2.convs ∧ id ∈ x.2.mat by simpa using h []
+  induction tags with
+  | nil => simp
+  | cons a r ih =>
+    intro acc
+    simp only [List.foldl_cons, ih, List.mem_cons]
+    by_cases h : a.1 != n && a.2.convs.contains c
+    · rw [if_pos h, mem_union]
+      have h' : a.1 ≠ n ∧ c ∈ a.2.convs := by simpa using h
+      grind
+    · rw [if_neg h]
+      have h' : ¬ (a.1 ≠ n ∧ c ∈ a.2.convs) := by simpa using h
+      grind
+
+theorem dc2_frame (s : St) (n c : String) (t : Tag) :
+    (dc2 s n c t).tags = sins n { t with convs := t.convs.filter (· != c) } s.tags ∧
+    (dc2 s n c t).convs = s.convs ∧ (dc2 s n c t).next = s.next ∧
+    (dc2 s n c t).idx = s.idx ∧ (dc2 s n c t).files = s.files := by
+  unfold dc2
+  simp only []
+  split <;> exact ⟨rfl, rfl, rfl, rfl, rfl⟩
+
+theorem dc2_q (s : St) (n c : String) (t : Tag) (c' : String) :
+    qOf (dc2 s n c t) c' = if c = c' then
+      diff (qOf s c) (diff t.mat (othersOf (sins n { t with convs := t.convs.filter (· != c) } s.tags) n c))
+      else qOf s c' := by
+  unfold dc2
+  simp only []
+  split <;> simp only [qOf, setTag, sget_sins] <;> split <;> rfl
+
+theorem dc2_c (s : St) (n c : String) (t : Tag) (c' : String) :
+    cOf (dc2 s n c t) c' = if c = c' ∧
+        othersOf (sins n { t with convs := t.convs.filter (· != c) } s.tags) n c = [] then []
+      else cOf s c' := by
+  unfold dc2
+  simp only []
+  split
+  · next h =>
+    have h' := List.isEmpty_iff.1 h
+    simp only [setTag] at h'
+    simp only [cOf, setTag, sget_sins, h', and_true]; split <;> rfl
+  · next h =>
+    have h' : ¬ _ = [] := fun e => h (List.isEmpty_iff.2 e)
+    simp only [setTag] at h'
+    simp only [cOf, setTag, h', and_false, if_false]
+
+theorem Good0_detachConv (s : St) (n c : String) (h : Good0 s) : Good0 (detachConv s n c) := by
+  rw [detachConv_eq]
+  split
+  · exact h
+  · next t ht =>
+    obtain ⟨hacc, hcwf, hcov⟩ := h
+    obtain ⟨f1, f2, f3, f4, f5⟩ := dc2_frame s n c t
+    have hle : TagsLe (dc2 s n c t).tags s.tags := by
+      rw [f1]
+      exact TagsLe_sins _ _ t _ ht (fun c' h => (List.mem_filter.1 h).1) (fun _ h => h)
+    refine ⟨?_, CWF_of_le hle f2 hcwf, ?_⟩
+    · intro m u hu c' hc' id hid hlt
+      rw [f3] at hlt
+      rw [dc2_q, dc2_c]
+      by_cases hcc : c = c'
+      · subst hcc
+        -- the tag is another one
+        have hmn : m ≠ n := by
+          intro e; subst e
+          rw [f1, sget_sins, if_pos rfl] at hu
+          cases hu
+          simp at hc'
+        have hu' : sget s.tags m = some u := by
+          rw [f1, sget_sins, if_neg (fun e => hmn e.symm)] at hu; exact hu
+        have hoth : id ∈ othersOf (sins n { t with convs := t.convs.filter (· != c) } s.tags) n c := by
+          rw [mem_othersOf]
+          refine ⟨(m, u), ?_, hmn, hc', hid⟩
+          apply sget_mem
+          rw [sget_sins, if_neg (fun e => hmn e.symm)]; exact hu'
+        have hne : ¬ othersOf (sins n { t with convs := t.convs.filter (· != c) } s.tags) n c = [] :=
+          fun e => by simp [e] at hoth
+        simp only [hne, and_false, if_false, if_true, mem_diff]
+        rcases hacc m u hu' c hc' id hid hlt with h | h
+        · exact Or.inl h
+        · exact Or.inr ⟨h, fun hh => hh.2 hoth⟩
+      · simp only [hcc, false_and, if_false]
+        rcases hle m u hu with h0 | ⟨n0, t0, ht0, hcs, hm⟩
+        · simp [h0] at hc'
+        · exact hacc n0 t0 ht0 c' (hcs c' hc') id (hm id hid) hlt
+    · intro id hid
+      rw [f4, f5]; exact hcov id (f3 ▸ hid)
+
+theorem detachConv_convs (s : St) (n c : String) : (detachConv s n c).convs = s.convs := by
+  rw [detachConv_eq]; split
+  · rfl
+  · exact (dc2_frame _ _ _ _).2.1
+theorem attachConv_convs (s : St) (n c : String) : (attachConv s n c).1.convs = s.convs := by
+  unfold attachConv
+  split
+  · rfl
+  · split
+    · rfl
+    · split <;> rfl
+
+theorem Good0_attachConv (s : St) (n c : String) (hc : c ∈ s.convs) (h : Good0 s) :
+    Good0 (attachConv s n c).1 := by
+  unfold attachConv
+  split
+  · exact h
+  · next t ht =>
+    split
+    · exact h
+    · split
+      · exact h
+      · obtain ⟨hacc, hcwf, hcov⟩ := h
+        simp only [setTag]
+        refine ⟨?_, ?_, hcov⟩
+        · intro m u hu c' hc' id hid hlt
+          simp only [sget_sins] at hu
+          simp only [cOf, qOf, sget_sins]
+          change id < s.next at hlt
+          split at hu
+          · next e =>
+            subst e; cases hu
+            simp only [List.mem_append, List.mem_singleton] at hc'
+            by_cases hcc : c = c'
+            · subst hcc; simp only [if_true, Option.getD_some, mem_union]; exact Or.inr (Or.inr hid)
+            · rcases hc' with h1 | h1
+              · simp only [hcc, if_false]; exact hacc n t ht c' h1 id hid hlt
+              · exact absurd h1.symm hcc
+          · have := hacc m u hu c' hc' id hid hlt
+            by_cases hcc : c = c'
+            · subst hcc; simp only [if_true, Option.getD_some, mem_union]
+              rcases this with h1 | h1
+              · exact Or.inl h1
+              · exact Or.inr (Or.inl h1)
+            · simp only [hcc, if_false]; exact this
+        · intro m u hu c' hc'
+          simp only [sget_sins] at hu
+          change c' ∈ s.convs
+          split at hu
+          · cases hu
+            simp only [List.mem_append, List.mem_singleton] at hc'
+            rcases hc' with h1 | h1
+            · exact hcwf n t ht c' h1
+            · exact h1 ▸ hc
+          · exact hcwf m u hu c' hc'
+
+/-! ## sorted keys: entries are lookups -/
+
+theorem mem_sget_of_sorted {α} (l : List (String × α)) (hw : (l.map (·.1)).Pairwise (· < ·))
+    (k : String) (v : α) (h : (k, v) ∈ l) : sget l k = some v := by
+  induction l with
+  | nil => simp at h
+  | cons a r ih =>
+    simp only [List.map_cons, List.pairwise_cons] at hw
+    rw [sget_cons]
+    rcases List.mem_cons.1 h with e | e
+    · subst e; simp
+    · have : a.1 < k := hw.1 k (List.mem_map.2 ⟨(k, v), e, rfl⟩)
+      have hne : ¬ a.1 = k := fun e => by subst e; exact absurd this (String.lt_irrefl _)
+      rw [if_neg hne]; exact ih hw.2 e
+
+theorem sins_sorted {α} (l : List (String × α)) (hw : (l.map (·.1)).Pairwise (· < ·)) (k : String) (v : α) :
+    ((sins k v l).map (·.1)).Pairwise (· < ·) ∧ ∀ x ∈ sins k v l, x = (k, v) ∨ x ∈ l := by
+  induction l with
+  | nil => simp [sins]
+  | cons a r ih =>
+    obtain ⟨ka, va⟩ := a
+    simp only [List.map_cons, List.pairwise_cons] at hw
+    simp only [sins]
+    split
+    · next hlt =>
+      refine ⟨?_, by simp⟩
+      simp only [List.map_cons, List.pairwise_cons, List.mem_cons, forall_eq_or_imp]
+      exact ⟨⟨hlt, fun b hb => String.lt_trans hlt (hw.1 b hb)⟩, hw.1, hw.2⟩
+    · split
+      · next _ he =>
+        subst he
+        refine ⟨?_, by simp; grind⟩
+        simp only [List.map_cons, List.pairwise_cons]
+        exact hw
+      · next h1 h2 =>
+        obtain ⟨i1, i2⟩ := ih hw.2
+        refine ⟨?_, ?_⟩
+        · simp only [List.map_cons, List.pairwise_cons]
+          refine ⟨?_, i1⟩
+          intro b hb
+          obtain ⟨x, hx, rfl⟩ := List.mem_map.1 hb
+          rcases i2 x hx with e | e
+          · subst e
+            rcases Std.lt_trichotomy (a := k) (b := ka) with h | h | h
+            · exact absurd h h1
+            · exact absurd h h2
+            · exact h
+          · exact hw.1 _ (List.mem_map.2 ⟨x, e, rfl⟩)
+        · intro x hx
+          rcases List.mem_cons.1 hx with e | e
+          · exact Or.inr (by simp [e])
+          · rcases i2 x e with e | e
+            · exact Or.inl e
+            · exact Or.inr (by simp [e])
+
+theorem detach_stops' (s : St) (n c : String) (t : Tag) (hw : (s.tags.map (·.1)).Pairwise (· < ·))
+    (ht : sget s.tags n = some t) (id : Nat) (hm : id ∈ t.mat)
+    (hothers : ∀ n2 t2, sget s.tags n2 = some t2 → n2 ≠ n → c ∈ t2.convs → id ∉ t2.mat) :
+    id ∉ qOf (detachConv s n c) c := by
+  rw [detachConv_eq, ht]
+  simp only [dc2_q, if_true, mem_diff]
+  rintro ⟨_, hh⟩
+  apply hh
+  refine ⟨hm, ?_⟩
+  rw [mem_othersOf]
+  rintro ⟨⟨n2, t2⟩, hx, h1, h2, h3⟩
+  rcases (sins_sorted s.tags hw n _).2 _ hx with e | e
+  · cases e; exact h1 rfl
+  · exact hothers n2 t2 (mem_sget_of_sorted _ hw _ _ e) h1 h2 h3
+/-! ## queueing a set of streams for a list of converters -/
+
+def qadd1 (X : IdSet) (s : St) (c : String) : St :=
+  { s with toconv := sins c (union ((sget s.toconv c).getD []) X) s.toconv }
+
+theorem qadd_fold (X : IdSet) (l : List String) (s : St) : NQ (l.foldl (qadd1 X) s) = NQ s := by
+  induction l generalizing s with
+  | nil => rfl
+  | cons a r ih => simp only [List.foldl_cons]; rw [ih]; rfl
+
+theorem qadd_fold_q (X : IdSet) (l : List String) (s : St) (c : String) (id : Nat) :
+    id ∈ qOf (l.foldl (qadd1 X) s) c ↔ id ∈ qOf s c ∨ (c ∈ l ∧ id ∈ X) := by
+  induction l generalizing s with
+  | nil => simp
+  | cons a r ih =>
+    simp only [List.foldl_cons, ih, List.mem_cons]
+    have : id ∈ qOf (qadd1 X s a) c ↔ id ∈ qOf s c ∨ (c = a ∧ id ∈ X) := by
+      simp only [qOf, qadd1, sget_sins]
+      by_cases h2 : a = c
+      · simp [h2, mem_union]
+      · have : ¬ c = a := fun e => h2 e.symm
+        simp [h2, this]
+    rw [this]
+    grind
+
+/-! ## mark updates -/
+
+def muAdd (t : Tag) (s : St) (addIds : List Nat) : Tag × St :=
+  if addIds.isEmpty then (t, s) else
+    let fresh := addIds.foldl (fun (acc : List Nat) x => if t.mat.contains x || acc.contains x then acc else acc ++ [x]) []
+    let t1 := { t with mat := union t.mat fresh, unc := union t.unc fresh }
+    let s := t.convs.foldl (fun s c => { s with toconv := sins c (union ((sget s.toconv c).getD []) fresh) s.toconv }) s
+    if fresh.isEmpty then (t1, s)
+    else
+      let mq := mkQuery fresh
+      let d := if t1.defn == "id:-1" then mq
+               else if isPlainIdList t1.defn then t1.defn ++ "," ++ (mq.drop 3)
+               else "(" ++ t1.defn ++ ") or " ++ mq
+      ({ t1 with defn := d }, s)
+
+def muDel (t : Tag) (delIds : List Nat) : Tag :=
+  if delIds.isEmpty then t else
+    let gone := delIds.filter (fun x => t.mat.contains x)
+    let t1 := { t with mat := diff t.mat gone, unc := union t.unc gone }
+    if t1.mat.isEmpty then { t1 with defn := "id:-1" } else { t1 with defn := mkQuery t1.mat }
+
+def muFin (s : St) (name : String) (t : Tag) (prevU : IdSet) : St :=
+  let s := setTag s name t
+  let s := inherit s
+  let s := invalidatedDuringTaggingJob s t.unc
+  match sget s.tags name with
+  | some t' => setTag s name { t' with unc := prevU }
+  | none => s
+
+theorem markUpdate_eq (s : St) (name : String) (a d : List Nat) :
+    markUpdate s name a d = match sget s.tags name with
+      | none => (s, .err)
+      | some t => (muFin (muAdd t s a).2 name (muDel (muAdd t s a).1 d) t.unc, .ok) := by
+  unfold markUpdate
+  cases sget s.tags name <;> rfl
+
+theorem muAdd_props (t : Tag) (s : St) (a : List Nat) :
+    ∃ fresh : IdSet, (muAdd t s a).1.convs = t.convs ∧
+      (∀ id ∈ (muAdd t s a).1.mat, id ∈ t.mat ∨ id ∈ fresh) ∧
+      NQ (muAdd t s a).2 = NQ s ∧
+      ∀ c id, id ∈ qOf (muAdd t s a).2 c ↔ id ∈ qOf s c ∨ (c ∈ t.convs ∧ id ∈ fresh) := by
+  unfold muAdd
+  split
+  · exact ⟨[], rfl, fun id h => Or.inl h, rfl, by simp⟩
+  · simp only []
+    generalize List.foldl (fun (acc : List Nat) x => if t.mat.contains x || acc.contains x then acc else acc ++ [x]) [] a = fresh
+    refine ⟨fresh, ?_⟩
+    have e : (List.foldl (fun (s : St) c => { s with toconv := sins c (union ((sget s.toconv c).getD []) fresh) s.toconv }) s t.convs)
+        = t.convs.foldl (qadd1 fresh) s := rfl
+    rw [e]
+    split
+    · exact ⟨rfl, fun id h => (mem_union _ _ _).1 h, qadd_fold _ _ _, qadd_fold_q _ _ _⟩
+    · exact ⟨rfl, fun id h => (mem_union _ _ _).1 h, qadd_fold _ _ _, qadd_fold_q _ _ _⟩
+
+theorem muDel_props (t : Tag) (d : List Nat) :
+    (muDel t d).convs = t.convs ∧ ∀ id ∈ (muDel t d).mat, id ∈ t.mat := by
+  unfold muDel
+  split
+  · exact ⟨rfl, fun _ h => h⟩
+  · simp only []
+    split <;> exact ⟨rfl, fun id h => ((mem_diff _ _ _).1 h).1⟩
+
+theorem muFin_same (s : St) (name : String) (t : Tag) (u : IdSet) :
+    Same (setTag s name t) (muFin s name t u) := by
+  unfold muFin
+  simp only []
+  have h1 : Same (setTag s name t) (invalidatedDuringTaggingJob (inherit (setTag s name t)) t.unc) :=
+    (Same_inherit _).trans (Same_invDuring _ _)
+  split
+  · next t' ht' => exact h1.trans (Same_setTag _ _ t' _ ht' (fun _ h => h) (fun _ h => h))
+  · exact h1
+
+theorem Good0_markUpdate (s : St) (name : String) (a d : List Nat) (h : Good0 s) :
+    Good0 (markUpdate s name a d).1 := by
+  rw [markUpdate_eq]
+  split
+  · exact h
+  · next t ht =>
+    simp only []
+    apply Good0_of_same (muFin_same _ _ _ _)
+    obtain ⟨hacc, hcwf, hcov⟩ := h
+    obtain ⟨fresh, a1, a2, a3, a4⟩ := muAdd_props t s a
+    obtain ⟨d1, d2⟩ := muDel_props (muAdd t s a).1 d
+    simp only [NQ, Prod.mk.injEq] at a3
+    obtain ⟨e1, e2, e3, e4, e5, e6, _⟩ := a3
+    refine ⟨?_, ?_, ?_⟩
+    · intro m u hu c hc id hid hlt
+      simp only [setTag, sget_sins, e1] at hu
+      change id < (muAdd t s a).2.next at hlt
+      rw [e3] at hlt
+      have hc' : cOf (setTag (muAdd t s a).2 name (muDel (muAdd t s a).1 d)) c = cOf s c := by
+        simp only [cOf, setTag, e6]
+      have hq : ∀ id, id ∈ qOf (setTag (muAdd t s a).2 name (muDel (muAdd t s a).1 d)) c ↔
+          id ∈ qOf s c ∨ (c ∈ t.convs ∧ id ∈ fresh) := a4 c
+      rw [hc', hq]
+      split at hu
+      · cases hu
+        rw [d1, a1] at hc
+        rcases a2 id (d2 id hid) with h1 | h1
+        · rcases hacc name t ht c hc id h1 hlt with h2 | h2
+          · exact Or.inl h2
+          · exact Or.inr (Or.inl h2)
+        · exact Or.inr (Or.inr ⟨hc, h1⟩)
+      · rcases hacc m u hu c hc id hid hlt with h2 | h2
+        · exact Or.inl h2
+        · exact Or.inr (Or.inl h2)
+    · intro m u hu c hc
+      simp only [setTag, sget_sins, e1] at hu
+      change c ∈ (muAdd t s a).2.convs
+      rw [e2]
+      split at hu
+      · cases hu
+        rw [d1, a1] at hc
+        exact hcwf name t ht c hc
+      · exact hcwf m u hu c hc
+    · intro id hid
+      change id < (muAdd t s a).2.next at hid
+      change ∃ f ∈ (muAdd t s a).2.idx, id ∈ (nget (muAdd t s a).2.files f).getD []
+      rw [e4, e5]; exact hcov id (e3 ▸ hid)
+theorem TagsLe_sins' (tags' tags : List (String × Tag)) (hle : TagsLe tags' tags) (n n0 : String) (t t' : Tag)
+    (ht : sget tags n0 = some t) (hc : ∀ c ∈ t'.convs, c ∈ t.convs) (hm : ∀ id ∈ t'.mat, id ∈ t.mat) :
+    TagsLe (sins n t' tags') tags := by
+  intro m u hu
+  rw [sget_sins] at hu
+  split at hu
+  · cases hu; exact Or.inr ⟨n0, t, ht, hc, hm⟩
+  · exact hle m u hu
+
+theorem Same_setTag' (s s' : St) (h : Same s s') (n n0 : String) (t t' : Tag)
+    (ht : sget s.tags n0 = some t) (hc : ∀ c ∈ t'.convs, c ∈ t.convs) (hm : ∀ id ∈ t'.mat, id ∈ t.mat) :
+    Same s (setTag s' n t') :=
+  ⟨⟨h.1.cached, h.1.toconv, h.1.convs, h.1.next, h.1.convert,
+    TagsLe_sins' _ _ h.1.tags n n0 t t' ht hc hm⟩, h.2.1, h.2.2⟩
+
+theorem foldl_inv {σ β} (P : σ → Prop) (f : σ → β → σ) (l : List β)
+    (hf : ∀ s x, x ∈ l → P s → P (f s x)) (s : σ) (h : P s) : P (l.foldl f s) := by
+  induction l generalizing s with
+  | nil => exact h
+  | cons x xs ih =>
+    exact ih (fun s y hy => hf s y (by simp [hy])) _ (hf s x (by simp) h)
+
+/-- publishing a tag whose matches are all queued for its converters -/
+theorem Good0_publish (s : St) (name n0 : String) (ot t : Tag) (ht : sget s.tags n0 = some ot)
+    (hc : t.convs = ot.convs) (h : Good0 s) :
+    Good0 (setTag (t.convs.foldl (qadd1 t.mat) s) name t) := by
+  obtain ⟨hacc, hcwf, hcov⟩ := h
+  have e := qadd_fold t.mat t.convs s
+  simp only [NQ, Prod.mk.injEq] at e
+  obtain ⟨e1, e2, e3, e4, e5, e6, _⟩ := e
+  have hq := qadd_fold_q t.mat t.convs s
+  refine ⟨?_, ?_, ?_⟩
+  · intro m u hu c hcu id hid hlt
+    simp only [setTag, sget_sins, e1] at hu
+    change id < (t.convs.foldl (qadd1 t.mat) s).next at hlt
+    rw [e3] at hlt
+    have hc' : cOf (setTag (t.convs.foldl (qadd1 t.mat) s) name t) c = cOf s c := by
+      simp only [cOf, setTag, e6]
+    have hq' : ∀ id, id ∈ qOf (setTag (t.convs.foldl (qadd1 t.mat) s) name t) c ↔
+        id ∈ qOf s c ∨ (c ∈ t.convs ∧ id ∈ t.mat) := hq c
+    rw [hc', hq']
+    split at hu
+    · cases hu; exact Or.inr (Or.inr ⟨hcu, hid⟩)
+    · rcases hacc m u hu c hcu id hid hlt with h2 | h2
+      · exact Or.inl h2
+      · exact Or.inr (Or.inl h2)
+  · intro m u hu c hcu
+    simp only [setTag, sget_sins, e1] at hu
+    change c ∈ (t.convs.foldl (qadd1 t.mat) s).convs
+    rw [e2]
+    split at hu
+    · cases hu; rw [hc] at hcu; exact hcwf n0 ot ht c hcu
+    · exact hcwf m u hu c hcu
+  · intro id hid
+    change id < (t.convs.foldl (qadd1 t.mat) s).next at hid
+    change ∃ f ∈ (t.convs.foldl (qadd1 t.mat) s).idx, id ∈ (nget (t.convs.foldl (qadd1 t.mat) s).files f).getD []
+    rw [e4, e5]; exact hcov id (e3 ▸ hid)
+
+theorem Grow_flags (s : St) (b : Bool) (j : Option (List (String × IdSet) × List Nat)) :
+    Grow s { s with convert := b, jConv := j } :=
+  ⟨rfl, rfl, rfl, rfl, TagsLe.refl _, fun _ _ h => h⟩
+/-! ## the invariant with an optional accounting part
+
+`Good b s`: converters of tags are known; if `b` holds, matching streams are accounted for and
+every stream is stored in a served file.  `b := False` gives the bare `CWF` preservation. -/
+
+def Good (b : Prop) (s : St) : Prop := CWF s ∧ (b → Acc s ∧ Cov s)
+
+theorem Good.lift {b : Prop} {s s' : St} (hc : CWF s → CWF s') (hg : Good0 s → Good0 s')
+    (h : Good b s) : Good b s' :=
+  ⟨hc h.1, fun hb => have g := hg ⟨(h.2 hb).1, h.1, (h.2 hb).2⟩; ⟨g.1, g.2.2⟩⟩
+
+theorem Good_of_grow {b : Prop} {s s' : St} (g : Grow s s') (h : Good b s) : Good b s' :=
+  Good.lift (CWF_of_le g.tags g.convs) (Good0_of_grow g) h
+theorem Good_of_same {b : Prop} {s s' : St} (g : Same s s') (h : Good b s) : Good b s' :=
+  Good_of_grow g.grow h
+
+theorem CWF_startConverter (s : St) (h : CWF s) : CWF (startConverter s) := by
+  obtain ⟨f1, f2, _⟩ := startConverter_frame s
+  intro n t ht c hc
+  rw [f1] at ht; rw [f2]; exact h n t ht c hc
+
+theorem Good_startConverter {b : Prop} (s : St) (h : Good b s) : Good b (startConverter s) :=
+  Good.lift (CWF_startConverter s) (Good0_startConverter s) h
+
+theorem CWF_detachConv (s : St) (n c : String) (h : CWF s) : CWF (detachConv s n c) := by
+  rw [detachConv_eq]
+  split
+  · exact h
+  · next t ht =>
+    obtain ⟨f1, f2, _⟩ := dc2_frame s n c t
+    refine CWF_of_le ?_ f2 h
+    rw [f1]
+    exact TagsLe_sins _ _ t _ ht (fun c' h => (List.mem_filter.1 h).1) (fun _ h => h)
+
+theorem Good_detachConv {b : Prop} (s : St) (n c : String) (h : Good b s) : Good b (detachConv s n c) :=
+  Good.lift (CWF_detachConv s n c) (Good0_detachConv s n c) h
+
+theorem CWF_attachConv (s : St) (n c : String) (hc : c ∈ s.convs) (h : CWF s) :
+    CWF (attachConv s n c).1 := by
+  unfold attachConv
+  split
+  · exact h
+  · next t ht =>
+    split
+    · exact h
+    · split
+      · exact h
+      · intro m u hu c' hc'
+        simp only [setTag, sget_sins] at hu
+        change c' ∈ s.convs
+        split at hu
+        · cases hu
+          simp only [List.mem_append, List.mem_singleton] at hc'
+          rcases hc' with h1 | h1
+          · exact h n t ht c' h1
+          · exact h1 ▸ hc
+        · exact h m u hu c' hc'
+
+theorem Good_attachConv {b : Prop} (s : St) (n c : String) (hc : c ∈ s.convs) (h : Good b s) :
+    Good b (attachConv s n c).1 :=
+  Good.lift (CWF_attachConv s n c hc) (Good0_attachConv s n c hc) h
+
+theorem CWF_publish (s : St) (name n0 : String) (ot t : Tag) (ht : sget s.tags n0 = some ot)
+    (hc : t.convs = ot.convs) (h : CWF s) :
+    CWF (setTag (t.convs.foldl (qadd1 t.mat) s) name t) := by
+  have e := qadd_fold t.mat t.convs s
+  simp only [NQ, Prod.mk.injEq] at e
+  obtain ⟨e1, e2, _⟩ := e
+  intro m u hu c hcu
+  simp only [setTag, sget_sins, e1] at hu
+  change c ∈ (t.convs.foldl (qadd1 t.mat) s).convs
+  rw [e2]
+  split at hu
+  · cases hu; rw [hc] at hcu; exact h n0 ot ht c hcu
+  · exact h m u hu c hcu
+
+theorem Good_publish {b : Prop} (s : St) (name n0 : String) (ot t : Tag) (ht : sget s.tags n0 = some ot)
+    (hc : t.convs = ot.convs) (h : Good b s) :
+    Good b (setTag (t.convs.foldl (qadd1 t.mat) s) name t) :=
+  Good.lift (CWF_publish s name n0 ot t ht hc) (Good0_publish s name n0 ot t ht hc) h
+
+theorem CWF_markUpdate (s : St) (name : String) (a d : List Nat) (h : CWF s) :
+    CWF (markUpdate s name a d).1 := by
+  rw [markUpdate_eq]
+  split
+  · exact h
+  · next t ht =>
+    simp only []
+    apply CWF_of_sameK (muFin_same _ _ _ _).1
+    obtain ⟨fresh, a1, a2, a3, a4⟩ := muAdd_props t s a
+    obtain ⟨d1, d2⟩ := muDel_props (muAdd t s a).1 d
+    simp only [NQ, Prod.mk.injEq] at a3
+    obtain ⟨e1, e2, _⟩ := a3
+    intro m u hu c hc
+    simp only [setTag, sget_sins, e1] at hu
+    change c ∈ (muAdd t s a).2.convs
+    rw [e2]
+    split at hu
+    · cases hu
+      rw [d1, a1] at hc
+      exact h name t ht c hc
+    · exact h m u hu c hc
+
+theorem Good_markUpdate {b : Prop} (s : St) (name : String) (a d : List Nat) (h : Good b s) :
+    Good b (markUpdate s name a d).1 :=
+  Good.lift (CWF_markUpdate s name a d) (Good0_markUpdate s name a d) h
+
+/-! ## per-event lemmas -/
+
+section events
+variable {b : Prop}
+
+theorem Acc_release (s : St) (fs : List Nat) (h : Acc s) : Acc (release s fs) :=
+  Acc_of_sameK (release_sameK s fs).1 h
+theorem CWF_release (s : St) (fs : List Nat) (h : CWF s) : CWF (release s fs) :=
+  CWF_of_sameK (release_sameK s fs).1 h
+
+/-- what remains of `Good` after files were released -/
+def AC (b : Prop) (s : St) : Prop := CWF s ∧ (b → Acc s)
+theorem AC_of_sameK {s s' : St} (g : SameK s s') (h : AC b s) : AC b s' :=
+  ⟨CWF_of_sameK g h.1, fun hb => Acc_of_sameK g (h.2 hb)⟩
+theorem AC_release (s : St) (fs : List Nat) (h : AC b s) : AC b (release s fs) :=
+  AC_of_sameK (release_sameK s fs).1 h
+theorem Good.ac {s : St} (h : Good b s) : AC b s := ⟨h.1, fun hb => (h.2 hb).1⟩
+
+theorem ev_nop (s : St) (st : Started) (h : Good b s) : Good b (step s .nop st).1 := h
+
+theorem ev_importPcaps (s : St) (st : Started) (names : List String) (h : Good b s) :
+    Good b (step s (.importPcaps names) st).1 := by
+  simp only [step]
+  split
+  · exact h
+  · simp only []
+    split
+    · exact Good_of_same (Same_startImport _) (Good_of_same ⟨⟨rfl, rfl, rfl, rfl, rfl, TagsLe.refl _⟩, rfl, rfl⟩ h)
+    · exact Good_of_same ⟨⟨rfl, rfl, rfl, rfl, rfl, TagsLe.refl _⟩, rfl, rfl⟩ h
+
+theorem ev_viewOpen (s : St) (st : Started) (k : Nat) (h : Good b s) :
+    Good b (step s (.viewOpen k) st).1 := by
+  simp only [step]
+  split
+  · exact h
+  · exact Good_of_same ⟨⟨rfl, rfl, rfl, rfl, rfl, TagsLe.refl _⟩, rfl, rfl⟩ h
+
+theorem ev_viewRelease (s : St) (st : Started) (k : Nat) (h : AC b s) :
+    AC b (step s (.viewRelease k) st).1 := by
+  simp only [step]
+  split
+  · exact h
+  · have g : SameK s { s with views := ndel s.views k } := ⟨rfl, rfl, rfl, rfl, rfl, TagsLe.refl _⟩
+    exact AC_release _ _ (AC_of_sameK g h)
+
+theorem ev_updColor (s : St) (st : Started) (name color : String) (h : Good b s) :
+    Good b (step s (.updColor name color) st).1 := by
+  simp only [step]
+  split
+  · exact h
+  · next t ht =>
+    simp only []
+    split
+    · exact h
+    · exact Good_of_same (Same_setTag s name t _ ht (fun _ h => h) (fun _ h => h)) h
+theorem Same_tagflag (s : St) (b : Bool) : Same s { s with tag := b } :=
+  ⟨⟨rfl, rfl, rfl, rfl, rfl, TagsLe.refl _⟩, rfl, rfl⟩
+
+theorem ev_mergeDone (s : St) (st : Started) (merged : List (Nat × List Nat)) (h : AC b s) :
+    AC b (step s (.mergeDone merged) st).1 := by
+  simp only [step]
+  split
+  · exact h
+  · next off held hj =>
+    simp only []
+    apply AC_release
+    apply AC_of_sameK (Same_startMerge _).1
+    split
+    · exact AC_of_sameK ⟨rfl, rfl, rfl, rfl, rfl, TagsLe.refl _⟩ h
+    · have g := (release_sameK { s with jMerge := none } (List.take held.length (List.drop off s.idx))).1
+      refine AC_of_sameK ?_ (AC_of_sameK g (AC_of_sameK ⟨rfl, rfl, rfl, rfl, rfl, TagsLe.refl _⟩ h))
+      exact ⟨rfl, rfl, rfl, rfl, rfl, TagsLe.refl _⟩
+
+theorem ev_tagDone (s : St) (st : Started) (name : String) (result : List Nat) (h : Good b s) :
+    AC b (step s (.tagDone name result) st).1 := by
+  simp only [step]
+  split
+  · exact h.ac
+  · next jn snap held hj =>
+    split
+    · exact AC_of_sameK ⟨rfl, rfl, rfl, rfl, rfl, TagsLe.refl _⟩ h.ac
+    · simp only []
+      apply AC_release
+      apply Good.ac
+      apply Good_of_same (Same_startMerge _)
+      apply Good_startConverter
+      apply Good_of_same (Same_startTagging _ _)
+      have h0 : Good b { s with jTag := none } := Good_of_same ⟨⟨rfl, rfl, rfl, rfl, rfl, TagsLe.refl _⟩, rfl, rfl⟩ h
+      refine Good_of_same (Same_tagflag _ false) ?_
+      split
+      · next ot hot =>
+        split
+        · have hp := Good_publish { s with jTag := none } name name ot
+            { snap with mat := union (diff snap.mat snap.unc) (ofList result), unc := [], color := ot.color, convs := ot.convs, refBy := ot.refBy }
+            hot rfl h0
+          split
+          · exact hp
+          · exact Good_of_same (Same_invalidateTags _ _ _ _) hp
+        · exact h0
+      · exact h0
+theorem ev_convertDone (s : St) (st : Started) (h : Good b s) :
+    AC b (step s .convertDone st).1 := by
+  simp only [step]
+  split
+  · exact h.ac
+  · next sets held hj =>
+    simp only []
+    apply AC_release
+    apply Good.ac
+    apply Good_startConverter
+    apply Good_of_same (Same_startTagging _ _)
+    apply Good_of_same (Same_inherit _)
+    refine Good_of_same (Same_foldl _ _ ?_ _) (Good_of_grow (Grow_flags s false none) h)
+    intro s' x
+    split
+    · exact Same.refl _
+    · refine ⟨⟨rfl, rfl, rfl, rfl, rfl, ?_⟩, rfl, rfl⟩
+      apply TagsLe_map
+      intro y
+      split <;> exact ⟨rfl, rfl, rfl⟩
+
+theorem ev_markAdd (s : St) (st : Started) (name : String) (ids : List Nat) (h : Good b s) :
+    Good b (step s (.markAdd name ids) st).1 := by
+  simp only [step]
+  split
+  · exact h
+  · split
+    · exact h
+    · split
+      · exact h
+      · split
+        · exact h
+        · simp only []
+          apply Good_startConverter
+          apply Good_of_same (Same_startTagging _ _)
+          exact Good_markUpdate _ _ _ _ h
+
+theorem ev_markDel (s : St) (st : Started) (name : String) (ids : List Nat) (h : Good b s) :
+    Good b (step s (.markDel name ids) st).1 := by
+  simp only [step]
+  split
+  · exact h
+  · split
+    · exact h
+    · split
+      · exact h
+      · split
+        · exact h
+        · simp only []
+          apply Good_startConverter
+          apply Good_of_same (Same_startTagging _ _)
+          exact Good_markUpdate _ _ _ _ h
+
+theorem ev_delTag (s : St) (st : Started) (name : String) (h : Good b s) :
+    Good b (step s (.delTag name) st).1 := by
+  simp only [step]
+  split
+  · exact h
+  · next t ht =>
+    split
+    · exact h
+    · simp only []
+      refine Good_of_same (Same_foldl _ _ (fun s r => Same_delRefBy s r name) _) ?_
+      refine Good_of_same (s := t.convs.foldl (fun s c => detachConv s name c) s)
+        ⟨⟨rfl, rfl, rfl, rfl, rfl, TagsLe_sdel _ _⟩, rfl, rfl⟩ ?_
+      exact foldl_inv (Good b) _ _ (fun s c _ hs => Good_detachConv s name c hs) s h
+theorem ev_addTag (s : St) (st : Started) (name color defn : String) (f : Facts) (h : Good b s) :
+    Good b (step s (.addTag name color defn f) st).1 := by
+  simp only [step]
+  rcases parseTagName name with ⟨typ, sub, isMark⟩
+  simp only []
+  split
+  · exact h
+  · split
+    · exact h
+    · split
+      · exact h
+      · split
+        · exact h
+        · split
+          · exact h
+          · split
+            · exact h
+            · simp only []
+              refine Good_of_same (Same_foldl _ _ (fun s r => Same_addRefBy s r name) _) ?_
+              cases isMark
+              · simp only [Bool.false_eq_true, if_false]
+                refine Good_of_same (Same_startTagging _ _) ?_
+                exact Good_of_same (Same_setTag_new _ _ _ rfl) h
+              · simp only [if_true]
+                exact Good_of_same (Same_setTag_new _ _ _ rfl) h
+
+theorem ev_updQuery (s : St) (st : Started) (name defn : String) (f : Facts) (h : Good b s) :
+    Good b (step s (.updQuery name defn f) st).1 := by
+  simp only [step]
+  split
+  · exact h
+  · split
+    · exact h
+    · split
+      · exact h
+      · split
+        · exact h
+        · next t ht =>
+          split
+          · exact h
+          · split
+            · exact h
+            · split
+              · exact h
+              · simp only []
+                apply Good_startConverter
+                apply Good_of_same (Same_startTagging _ _)
+                apply Good_of_same (Same_invDuring _ _)
+                apply Good_of_same (Same_inherit _)
+                refine Good_of_same (Same_setTag' s _ ?_ name name t _ ht (fun _ h => h) (fun _ h => by simp at h)) h
+                exact (Same_foldl _ _ (fun s r => Same_delRefBy s r name) _).trans
+                  (Same_foldl _ _ (fun s r => Same_addRefBy s r name) _)
+
+theorem ev_updName (s : St) (st : Started) (name new : String) (h : Good b s) :
+    Good b (step s (.updName name new) st).1 := by
+  simp only [step]
+  split
+  · exact h
+  · next t ht =>
+    split
+    · exact h
+    · rcases parseTagName name with ⟨oldTyp, x1, x2⟩
+      rcases parseTagName new with ⟨newTyp, newSub, x3⟩
+      simp only []
+      split
+      · exact h
+      · split
+        · exact h
+        · split
+          · exact h
+          · split
+            · exact h
+            · simp only []
+              refine Good_of_same (Same_foldl _ _ (fun s r => (Same_delRefBy s r name).trans (Same_addRefBy _ r new)) _) ?_
+              refine Good_of_same (Same_tags s _ ?_) h
+              exact TagsLe_sins' _ _ (TagsLe_sdel _ _) new name t t ht (fun _ h => h) (fun _ h => h)
+
+theorem attach_fold (name : String) (l : List String) (s : St) (hl : ∀ c ∈ l, c ∈ s.convs) (h : Good b s) :
+    Good b (l.foldl (fun s c => (attachConv s name c).1) s) := by
+  induction l generalizing s with
+  | nil => exact h
+  | cons a r ih =>
+    simp only [List.foldl_cons]
+    apply ih
+    · intro c hc; rw [attachConv_convs]; exact hl c (by simp [hc])
+    · exact Good_attachConv s name a (hl a (by simp)) h
+
+theorem detach_fold (name : String) (l : List String) (s : St) (h : Good b s) :
+    Good b (l.foldl (fun s c => detachConv s name c) s) ∧
+    (l.foldl (fun s c => detachConv s name c) s).convs = s.convs := by
+  induction l generalizing s with
+  | nil => exact ⟨h, rfl⟩
+  | cons a r ih =>
+    simp only [List.foldl_cons]
+    have := ih (detachConv s name a) (Good_detachConv s name a h)
+    exact ⟨this.1, this.2.trans (detachConv_convs _ _ _)⟩
+
+theorem ev_updConv (s : St) (st : Started) (name : String) (convs : List String) (h : Good b s) :
+    Good b (step s (.updConv name convs) st).1 := by
+  simp only [step]
+  split
+  · exact h
+  · next t ht =>
+    split
+    · exact h
+    · next hval =>
+      simp only []
+      apply Good_startConverter
+      obtain ⟨hd, hdc⟩ := detach_fold name (t.convs.filter (fun c => !convs.contains c)) s h
+      apply attach_fold
+      · intro c hc
+        rw [hdc]
+        have hc1 : c ∈ convs := (List.mem_filter.1 hc).1
+        simp only [List.any_eq_true, not_exists, not_and, Bool.and_eq_true, Bool.not_eq_true'] at hval
+        by_cases hin : c ∈ t.convs
+        · exact h.1 name t ht c hin
+        · have := hval c hc1 (by simpa using hin)
+          simp only [Bool.or_eq_true, not_or, Bool.not_eq_true', Bool.not_eq_true, Bool.not_eq_false'] at this
+          simpa using this.1
+      · exact hd
+end events
+
+/-! ## import completion -/
+
+theorem insFold_other (created : List (Nat × List Nat)) (files : List (Nat × List Nat)) (f : Nat)
+    (h : f ∉ created.map (·.1)) :
+    nget (created.foldl (fun fs (x : Nat × List Nat) => nins x.1 x.2 fs) files) f = nget files f := by
+  induction created generalizing files with
+  | nil => rfl
+  | cons a r ih =>
+    simp only [List.map_cons, List.mem_cons, not_or] at h
+    simp only [List.foldl_cons]
+    rw [ih _ h.2, nget_nins, if_neg (fun e => h.1 e.symm)]
+
+theorem insFold_mem (created : List (Nat × List Nat)) (files : List (Nat × List Nat))
+    (hnd : (created.map (·.1)).Nodup) (c : Nat × List Nat) (hc : c ∈ created) :
+    nget (created.foldl (fun fs (x : Nat × List Nat) => nins x.1 x.2 fs) files) c.1 = some c.2 := by
+  induction created generalizing files with
+  | nil => simp at hc
+  | cons a r ih =>
+    simp only [List.map_cons, List.nodup_cons] at hnd
+    simp only [List.foldl_cons]
+    rcases List.mem_cons.1 hc with e | e
+    · subst e
+      rw [insFold_other _ _ _ hnd.1, nget_nins, if_pos rfl]
+    · exact ih _ hnd.2 e
+
+theorem Good0_import_mid (s : St) (jn : Nat) (held : List Nat) (usednew : Nat)
+    (created : List (Nat × List Nat)) (u r a : IdSet) (nrec : Nat) (used : List (Nat × Nat))
+    (u' r' a' : IdSet)
+    (h : Good0 s)
+    (hmb : ∀ n t, sget s.tags n = some t → ∀ id ∈ t.mat, id < s.next)
+    (hused : ∀ f ∈ s.idx, held.count f < (nget s.used f).getD 0)
+    (hfresh : (created.map (·.1)).Nodup ∧ ∀ o ∈ created.map (·.1), nget s.files o = none)
+    (hjn : jn = s.next)
+    (hpay : ∀ id, jn ≤ id → id < jn + usednew → ∃ c ∈ created, id ∈ c.2) :
+    let s1 := release { s with all := jn + usednew, jImport := none } held
+    Good0 s1 ∧
+    Good0 (invalidateConverters (invalidateConverters (invalidateTags
+      { s1 with idx := s1.idx ++ created.map (·.1),
+                files := created.foldl (fun fs (x : Nat × List Nat) => nins x.1 x.2 fs) s1.files,
+                nrec := nrec, next := jn + usednew, used := used, upd := u', rst := r', add := a' } u r a) u) r) := by
+  intro s1
+  obtain ⟨hacc, hcwf, hcov⟩ := h
+  have g0 : SameK s { s with all := jn + usednew, jImport := none } := ⟨rfl, rfl, rfl, rfl, rfl, TagsLe.refl _⟩
+  have g1 := release_sameK { s with all := jn + usednew, jImport := none } held
+  have g : SameK s s1 := g0.trans g1.1
+  have hidx : s1.idx = s.idx := g1.2
+  have hfiles : ∀ f ∈ s.idx, nget s1.files f = nget s.files f := fun f hf =>
+    release_files_keep { s with all := jn + usednew, jImport := none } held f (hused f hf)
+  have hnone : ∀ o ∈ created.map (·.1), nget s1.files o = none := fun o ho =>
+    release_files_none { s with all := jn + usednew, jImport := none } held o (hfresh.2 o ho)
+  have hcov1 : Cov s1 := by
+    intro id hid
+    rw [g.next] at hid
+    obtain ⟨f, hf, hm⟩ := hcov id hid
+    exact ⟨f, hidx ▸ hf, by rw [hfiles f hf]; exact hm⟩
+  have hG1 : Good0 s1 := ⟨Acc_of_sameK g hacc, CWF_of_sameK g hcwf, hcov1⟩
+  refine ⟨hG1, ?_⟩
+  apply Good0_of_grow (invalidateConverters_grow _ _)
+  apply Good0_of_grow (invalidateConverters_grow _ _)
+  apply Good0_of_same (Same_invalidateTags _ _ _ _)
+  refine ⟨?_, ?_, ?_⟩
+  · intro n t ht c hc id hid _
+    have := hG1.1 n t ht c hc id hid
+    rcases g.tags n t ht with h0 | ⟨n0, t0, ht0, _, hm⟩
+    · simp [h0] at hc
+    · exact this (by rw [g.next]; exact hmb n0 t0 ht0 id (hm id hid))
+  · exact hG1.2.1
+  · intro id hid
+    change id < jn + usednew at hid
+    change ∃ f ∈ s1.idx ++ created.map (·.1),
+      id ∈ (nget (created.foldl (fun fs (x : Nat × List Nat) => nins x.1 x.2 fs) s1.files) f).getD []
+    by_cases hlt : id < s.next
+    · obtain ⟨f, hf, hm⟩ := hcov1 id (by rw [g.next]; exact hlt)
+      refine ⟨f, List.mem_append_left _ hf, ?_⟩
+      have hnot : f ∉ created.map (·.1) := by
+        intro hin
+        rw [hnone f hin] at hm
+        simp at hm
+      rw [insFold_other _ _ _ hnot]; exact hm
+    · obtain ⟨c, hc, hm⟩ := hpay id (by omega) hid
+      refine ⟨c.1, List.mem_append_right _ (List.mem_map.2 ⟨c, hc, rfl⟩), ?_⟩
+      rw [insFold_mem _ _ hfresh.1 c hc]; exact hm
+
+theorem Same_queue (s : St) (q : List String) : Same s { s with queue := q } :=
+  ⟨⟨rfl, rfl, rfl, rfl, rfl, TagsLe.refl _⟩, rfl, rfl⟩
+
+def impA (s : St) (jn : Nat) (held : List Nat) (usednew : Nat) : St :=
+  release { s with all := jn + usednew, jImport := none } held
+
+def impB (s : St) (jn usednew : Nat) (created : List (Nat × List Nat)) (upd rst add : IdSet) : St :=
+  if created.isEmpty then s else
+    let ords := created.map (·.1)
+    let s := { s with idx := s.idx ++ ords,
+                      files := created.foldl (fun fs (x : Nat × List Nat) => nins x.1 x.2 fs) s.files,
+                      nrec := s.nrec + (created.map (·.2.length)).sum,
+                      next := jn + usednew,
+                      used := lock s.used ords,
+                      upd := union s.upd upd, rst := union s.rst rst, add := union s.add add }
+    let s := invalidateTags s upd rst add
+    invalidateConverters (invalidateConverters s upd) rst
+
+def impC (s : St) (processed : Nat) : St :=
+  let s := { s with queue := s.queue.drop processed }
+  if s.queue.isEmpty then s else startImport s
+
+def impD (s : St) (st : Started) : St := startMerge (startConverter (startTagging s st.tag))
+
+theorem step_importDone_eq (s : St) (st : Started) (processed usednew : Nat)
+    (created : List (Nat × List Nat)) (upd rst add : List Nat) :
+    step s (.importDone processed usednew created upd rst add) st =
+      match s.jImport with
+      | none => (s, .none)
+      | some (jn, held) =>
+        (impD (impC (impB (impA s jn held usednew) jn usednew created (ofList upd) (ofList rst) (ofList add)) processed) st, .none) := by
+  simp only [step]
+  cases s.jImport <;> rfl
+
+theorem Good_impC {b : Prop} (s : St) (processed : Nat) (h : Good b s) : Good b (impC s processed) := by
+  unfold impC
+  simp only []
+  split
+  · exact Good_of_same (Same_queue _ _) h
+  · exact Good_of_same (Same_startImport _) (Good_of_same (Same_queue _ _) h)
+
+theorem Good_impD {b : Prop} (s : St) (st : Started) (h : Good b s) : Good b (impD s st) :=
+  Good_of_same (Same_startMerge _) (Good_startConverter _ (Good_of_same (Same_startTagging _ _) h))
+
+theorem CWF_impAB (s : St) (jn : Nat) (held : List Nat) (usednew : Nat)
+    (created : List (Nat × List Nat)) (u r a : IdSet) (h : CWF s) :
+    CWF (impB (impA s jn held usednew) jn usednew created u r a) := by
+  have gA : SameK s (impA s jn held usednew) :=
+    SameK.trans (b := { s with all := jn + usednew, jImport := none })
+      ⟨rfl, rfl, rfl, rfl, rfl, TagsLe.refl _⟩ (release_sameK _ _).1
+  have hA := CWF_of_sameK gA h
+  unfold impB
+  split
+  · exact hA
+  · simp only []
+    have g1 := invalidateConverters_grow
+    refine CWF_of_le (g1 _ _).tags (g1 _ _).convs (CWF_of_le (g1 _ _).tags (g1 _ _).convs ?_)
+    refine CWF_of_sameK (Same_invalidateTags _ _ _ _).1 ?_
+    exact hA
+
+theorem ev_importDone {b : Prop} (s : St) (st : Started) (processed usednew : Nat)
+    (created : List (Nat × List Nat)) (upd rst add : List Nat)
+    (h : Good b s)
+    (hmb : b → ∀ n t, sget s.tags n = some t → ∀ id ∈ t.mat, id < s.next)
+    (hused : b → ∀ jn held, s.jImport = some (jn, held) → ∀ f ∈ s.idx, held.count f < (nget s.used f).getD 0)
+    (hfresh : b → (created.map (·.1)).Nodup ∧ ∀ o ∈ created.map (·.1), nget s.files o = none)
+    (hpay : b → ∀ jn held, s.jImport = some (jn, held) → jn = s.next ∧
+      ∀ id, jn ≤ id → id < jn + usednew → ∃ c ∈ created, id ∈ c.2) :
+    Good b (step s (.importDone processed usednew created upd rst add) st).1 := by
+  rw [step_importDone_eq]
+  split
+  · exact h
+  · next jn held hj =>
+    simp only []
+    apply Good_impD
+    apply Good_impC
+    refine ⟨CWF_impAB s jn held usednew created _ _ _ h.1, fun hb => ?_⟩
+    have hmid := Good0_import_mid s jn held usednew created (ofList upd) (ofList rst) (ofList add)
+      ((impA s jn held usednew).nrec + (created.map (·.2.length)).sum)
+      (lock (impA s jn held usednew).used (created.map (·.1)))
+      (union (impA s jn held usednew).upd (ofList upd))
+      (union (impA s jn held usednew).rst (ofList rst))
+      (union (impA s jn held usednew).add (ofList add))
+      ⟨(h.2 hb).1, h.1, (h.2 hb).2⟩ (hmb hb) (hused hb jn held hj) (hfresh hb) (hpay hb jn held hj).1 (hpay hb jn held hj).2
+    have : Good0 (impB (impA s jn held usednew) jn usednew created (ofList upd) (ofList rst) (ofList add)) := by
+      unfold impB
+      split
+      · exact hmid.1
+      · exact hmid.2
+    exact ⟨this.1, this.2.2⟩
+
+/-- cache, converter list and converter flag are the same -/
+def SameC (s s' : St) : Prop := s'.cached = s.cached ∧ s'.convs = s.convs ∧ s'.convert = s.convert
+theorem SameK.c {s s' : St} (h : SameK s s') : SameC s s' := ⟨h.cached, h.convs, h.convert⟩
+theorem SameC.trans {a b c : St} (h1 : SameC a b) (h2 : SameC b c) : SameC a c :=
+  ⟨h2.1.trans h1.1, h2.2.1.trans h1.2.1, h2.2.2.trans h1.2.2⟩
+
+theorem import_drops' (s : St) (st : Started) (processed usednew : Nat)
+    (created : List (Nat × List Nat)) (upd rst add : List Nat) (c : String) (id : Nat)
+    (hj : s.jImport.isSome) (hcr : created ≠ []) (hc : c ∈ s.convs)
+    (hid : id ∈ upd ∨ id ∈ rst)
+    (hcached : id ∈ cOf (step s (.importDone processed usednew created upd rst add) st).1 c) :
+    s.convert = false ∧ (step s (.importDone processed usednew created upd rst add) st).1.convert = true := by
+  rw [step_importDone_eq] at hcached ⊢
+  cases hjj : s.jImport with
+  | none => simp [hjj] at hj
+  | some p =>
+    obtain ⟨jn, held⟩ := p
+    simp only [hjj] at hcached ⊢
+    -- the state after the invalidation
+    have gA : SameK s (impA s jn held usednew) :=
+      SameK.trans (b := { s with all := jn + usednew, jImport := none })
+        ⟨rfl, rfl, rfl, rfl, rfl, TagsLe.refl _⟩ (release_sameK _ _).1
+    generalize hA : impA s jn held usednew = sA at gA hcached ⊢
+    have hB : ∃ sT : St, SameC s sT ∧
+        impB sA jn usednew created (ofList upd) (ofList rst) (ofList add) =
+          invalidateConverters (invalidateConverters sT (ofList upd)) (ofList rst) := by
+      unfold impB
+      rw [if_neg (by simpa using hcr)]
+      refine ⟨_, ?_, rfl⟩
+      refine SameC.trans gA.c ?_
+      refine SameC.trans ?_ (Same_invalidateTags _ _ _ _).1.c
+      exact ⟨rfl, rfl, rfl⟩
+    obtain ⟨sT, gT, eB⟩ := hB
+    generalize impB sA jn usednew created (ofList upd) (ofList rst) (ofList add) = sB at eB hcached ⊢
+    have hBconv : sB.convert = s.convert := by
+      rw [eB, invalidateConverters_convert, invalidateConverters_convert, gT.2.2]
+    have hBnot : id ∉ cOf sB c := by
+      intro hin
+      rw [eB] at hin
+      obtain ⟨h1, h2⟩ := invalidateConverters_cached _ _ _ _ hin
+      obtain ⟨_, h4⟩ := invalidateConverters_cached _ _ _ _ h1
+      have hc1 : c ∈ sT.convs := by rw [gT.2.1]; exact hc
+      have hc2 : c ∈ (invalidateConverters sT (ofList upd)).convs := by
+        rw [(invalidateConverters_grow _ _).convs]; exact hc1
+      rcases hid with h | h
+      · exact h4 hc1 ((mem_ofList _ _).2 h)
+      · exact h2 hc2 ((mem_ofList _ _).2 h)
+    have gC : Same sB (impC sB processed) := by
+      unfold impC
+      simp only []
+      split
+      · exact Same_queue _ _
+      · exact (Same_queue _ _).trans (Same_startImport _)
+    have gX : Same sB (startTagging (impC sB processed) st.tag) := gC.trans (Same_startTagging _ _)
+    simp only [impD] at hcached ⊢
+    generalize startTagging (impC sB processed) st.tag = x at gX hcached ⊢
+    have gM := Same_startMerge (startConverter x)
+    have hcc : id ∈ cOf (startConverter x) c := by
+      simpa only [cOf, gM.1.cached] using hcached
+    rw [gM.1.convert]
+    rcases startConverter_cases x with e | ⟨e1, e2⟩
+    · rw [e] at hcc
+      exact absurd (by simpa only [cOf, gX.1.cached] using hcc) hBnot
+    · exact ⟨by rw [← hBconv, ← gX.1.convert]; exact e1, e2⟩
+
+/-! ## assembling the step -/
+
+/-- what the completion of an import needs beyond `Good` (only for the accounting part) -/
+def ImportOK (s : St) : Ev → Prop
+  | .importDone _ usednew created _ _ _ =>
+    (∀ n t, sget s.tags n = some t → ∀ id ∈ t.mat, id < s.next) ∧
+    (∀ jn held, s.jImport = some (jn, held) → ∀ f ∈ s.idx, held.count f < (nget s.used f).getD 0) ∧
+    ((created.map (·.1)).Nodup ∧ ∀ o ∈ created.map (·.1), nget s.files o = none) ∧
+    (∀ jn held, s.jImport = some (jn, held) → jn = s.next ∧
+      ∀ id, jn ≤ id → id < jn + usednew → ∃ c ∈ created, id ∈ c.2)
+  | _ => True
+
+theorem step_ac {b : Prop} (s : St) (e : Ev) (st : Started) (h : Good b s) (hi : b → ImportOK s e) :
+    AC b (step s e st).1 := by
+  cases e with
+  | nop => exact (ev_nop s st h).ac
+  | importPcaps names => exact (ev_importPcaps s st names h).ac
+  | importDone processed usednew created upd rst add =>
+    exact (ev_importDone s st processed usednew created upd rst add h
+      (fun hb => (hi hb).1) (fun hb => (hi hb).2.1) (fun hb => (hi hb).2.2.1) (fun hb => (hi hb).2.2.2)).ac
+  | tagDone name result => exact ev_tagDone s st name result h
+  | mergeDone merged => exact ev_mergeDone s st merged h.ac
+  | convertDone => exact ev_convertDone s st h
+  | addTag name color defn f => exact (ev_addTag s st name color defn f h).ac
+  | updQuery name defn f => exact (ev_updQuery s st name defn f h).ac
+  | updColor name color => exact (ev_updColor s st name color h).ac
+  | updName name new => exact (ev_updName s st name new h).ac
+  | updConv name convs => exact (ev_updConv s st name convs h).ac
+  | markAdd name ids => exact (ev_markAdd s st name ids h).ac
+  | markDel name ids => exact (ev_markDel s st name ids h).ac
+  | delTag name => exact (ev_delTag s st name h).ac
+  | viewOpen k => exact (ev_viewOpen s st k h).ac
+  | viewRelease k => exact ev_viewRelease s st k h.ac
+
 end Pk.Proofs.MgrConv
